@@ -47,10 +47,13 @@ def _cmp_fjsp(solo_row, solo_reward, row, reward):
 def _fjsp_part(ctx, rng, torch, nx, coll, count=True):
     from rl4co.envs.scheduling.fjsp.utils import blockify
     insts, cases, metas, jv = [], [], [], []
+    probed = []
     n_cmp = 0
     for kind in ("fjsp", "jssp"):
         for mno in (True, False):
             for rep in range(nx + 1):
+                if C.guard.timed_out(kind):     # an env call did not return (reported below): the env is abandoned
+                    continue
                 long_h = rep == nx      # last round: long horizon -- the clock passes INIT_FINISH = 9999 (X and/or its batch-mates)
                 gp = C.fjsp_long_params(rng, kind) if long_h else C.fjsp_gen_params(rng, kind, big=nx > 1)
                 torch.manual_seed(rng.randrange(2 ** 31))
@@ -69,9 +72,11 @@ def _fjsp_part(ctx, rng, torch, nx, coll, count=True):
                     slow = dict(strangers[-1])
                     slow["proc"] = [[v * 3 for v in r] for r in slow["proc"]]
                     strangers[-1] = slow
-                solo = C.fjsp_rollout(torch, env, C.fjsp_td(torch, [X]), rng, None, [rng.choice(["random", "wait", "nowait"])], 0)
+                solo = C.fjsp_rollout(torch, env, C.fjsp_td(torch, [X]), rng, None, [rng.choice(["random", "wait", "nowait"])], 0, kind=kind)
                 if solo["crash"] or solo["rewards"] is None:
-                    C.fjsp_py_c02(kind, mno, solo, C.Collector(ctx, "C04", "ignored"))
+                    # C02-type failures belong to C02 -- except a call that does not return, which every sched unit reports
+                    timeout = bool(solo["crash"]) and solo["crash"]["where"] == "timeout"
+                    C.fjsp_py_c02(kind, mno, solo, coll if timeout else C.Collector(ctx, "C04", "ignored"))
                     continue
                 plan = [s[0] for s in solo["rows"][0]["steps"]]
                 comps = [("padded-solo", [gen[x]], [0])]
@@ -80,8 +85,15 @@ def _fjsp_part(ctx, rng, torch, nx, coll, count=True):
                     comps.append(("position-%d-of-%d" % (p, len(rows)), rows, [p]))
                 comps.append(("copies", [X, X] + strangers[-1:], [0, 1]))
                 for name, rows, xs in comps:
+                    if C.guard.timed_out(kind):
+                        break
                     out = C.fjsp_rollout(torch, env, C.fjsp_td(torch, rows), rng, [plan if b in xs else None for b in range(len(rows))],
-                                         [rng.choice(["random", "wait", "nowait"]) for _ in rows], rng.randint(0, 2))
+                                         [rng.choice(["random", "wait", "nowait"]) for _ in rows], rng.randint(0, 2), kind=kind,
+                                         probe_reward=True)
+                    probed.append((kind, mno, out))
+                    if out["crash"] and out["crash"]["where"] == "timeout":
+                        C.fjsp_py_c02(kind, mno, out, coll)
+                        continue
                     if out["crash"] or out["rewards"] is None:
                         coll.fail(SIG % kind, C.fjsp_replay_obj(kind, mno, out, xs[0], {
                             "composition": name, "what": "the batch containing the instance crashed or reports a non-integral / infinite reward "
@@ -128,19 +140,26 @@ def _fjsp_part(ctx, rng, torch, nx, coll, count=True):
     jcodes = C.coq_codes(ctx, "cases_C04_sched_jobview", C.fjsp_header(insts), "inst * list Z * Z * nat * list (list Z)", "check_jobview", jv, shard=60)
     if jcodes is not None:
         coll.codes("fjsp-blockify", jcodes, [{"kind": "blockify", "case": t[:600]} for t in jv], "corr")
-    return {"fjsp_compared": n_cmp, "fjsp_model_rows": len(cases), "blockify_rows": len(jv)}
+    # a partly finished batch: env.get_reward must refuse it (the guard is batch-global; model SchedBatch.b_reward)
+    n_guard = C.fjsp_reward_guard_evaluate(ctx, probed, coll, "cases_C04_sched_rewardguard", count=count)
+    return {"fjsp_compared": n_cmp, "fjsp_model_rows": len(cases), "blockify_rows": len(jv), "fjsp_get_reward_guard_probes": n_guard}
 
 
 def _ffsp_part(ctx, rng, torch, nx, coll, count=True):
     cases, metas = [], []
+    batches = []
     n_cmp = 0
     for rep in range(nx):
+        if C.guard.timed_out("ffsp"):
+            break
         J, S_, M = rng.randint(2, 4), rng.choice([1, 2, 2, 3]), rng.randint(1, 2)
         env = C.ffsp_env(J, S_, M, rng.random() < 0.7)
         T = S_ * M
         X = G._rand_rt(rng, J, T, rng.choice([0, 1]), rng.choice([2, 4, 7]))
         solo = G.ffsp_episode(env, [X], [rng.choice(["uniform", "wait", "nowait"])], rng)[0]
         if solo["crashed"]:
+            if solo.get("timeout"):     # a call that does not return is reported by every sched unit
+                C.ffsp_py_c02([solo], coll)
             continue
         plan = [a for a, _ in solo["steps"]]
         B = rng.randint(3, 4)
@@ -149,8 +168,14 @@ def _ffsp_part(ctx, rng, torch, nx, coll, count=True):
         comps = [("position-%d-of-%d" % (p, B), strangers[:p] + [X] + strangers[p:], [p]) for p in range(B)]
         comps.append(("copies", [X, X, strangers[-1]], [0, 1]))
         for name, rows, xs in comps:
+            if C.guard.timed_out("ffsp"):
+                break
             recs = G.ffsp_episode(env, rows, [rng.choice(["uniform", "wait", "nowait"]) for _ in rows], rng,
-                                  forced=[plan if b in xs else [] for b in range(len(rows))])
+                                  forced=[plan if b in xs else [] for b in range(len(rows))], probe_pre_step=True)
+            batches.append(recs)
+            if recs[0].get("timeout"):
+                C.ffsp_py_c02(recs[:1], coll)
+                continue
             for b in xs:
                 rec = recs[b]
                 rec["kind"] = "batch"
@@ -189,12 +214,18 @@ def _ffsp_part(ctx, rng, torch, nx, coll, count=True):
                     coll.fail(SIG % "ffsp", dict(G.ffsp_replay_obj(rec, why, 0), composition=name, batch_run_times=rows,
                                                  solo={"actions": plan, "reward": solo["reward"], "schedule": solo["sched"]}))
                 elif not rec["crashed"]:
-                    cases.append(G.ffsp_case_term(rec))
+                    cases.append(G.ffsp_case_term(rec, keys=False))
                     metas.append(dict(G.ffsp_replay_obj(rec, "C04", 0), composition=name))
     codes = C.coq_codes(ctx, "cases_C04_sched_ffsp", C.HDR_FFSP, "HC07F.ffsp_case", "check_C04_ffsp", cases, shard=30)
     if codes is not None:
         coll.codes("ffsp", codes, metas, "corr")
-    return {"ffsp_compared": n_cmp, "ffsp_model_rows": len(cases)}
+    # env.pre_step on the running batches (clones): a batch-mate past stage 0 must make the call raise for the whole batch
+    for recs in G.ffsp_mixed_stage_batches(ctx.seed + nx):
+        batches.append(recs)
+        if recs[0].get("timeout"):
+            C.ffsp_py_c02(recs[:1], coll)
+    n_probe, _ = G.ffsp_probe_evaluate(ctx, batches, "cases_C04_sched_ffsp_prestep", C.HDR_FFSP, coll.fail, count=count)
+    return {"ffsp_compared": n_cmp, "ffsp_model_rows": len(cases), "ffsp_pre_step_probes": n_probe}
 
 
 def _smtwtp_part(ctx, rng, torch, nx, coll, count=True):
@@ -206,12 +237,20 @@ def _smtwtp_part(ctx, rng, torch, nx, coll, count=True):
         env = SMTWTPEnv(generator_params=dict(num_job=n), check_solution=False)
         rows = C.smtwtp_rows(rng, n, 4)
         X = rows[0]
+        if C.guard.timed_out("smtwtp"):
+            break
         solo = G.smtwtp_batch(env, [X], [None], rng)[0]
+        if solo.get("timeout"):
+            C.smtwtp_py_c02([solo], coll)
+            break
         plan = [a for a, _, _ in solo["steps"]]
         for p in range(3):
             batch = rows[1:1 + p] + [X] + rows[1 + p:3] + ([X] if p == 2 else [])
             xs = [p] + ([len(batch) - 1] if p == 2 else [])
             recs = G.smtwtp_batch(env, batch, [plan if b in xs else None for b in range(len(batch))], rng)
+            if recs[0].get("timeout"):
+                C.smtwtp_py_c02(recs[:1], coll)
+                break
             for b in xs:
                 rec = recs[b]
                 n_cmp += 1
@@ -230,7 +269,7 @@ def _smtwtp_part(ctx, rng, torch, nx, coll, count=True):
                 if why:
                     coll.fail(SIG % "smtwtp", dict(G.smtwtp_replay_obj(rec, why, 0), batch_rows=batch, solo_reward=solo["reward_f"]))
                 elif rec["reward_scaled"] is not None:
-                    cases.append(G.smtwtp_case_term(rec))
+                    cases.append(G.smtwtp_case_term(rec, keys=False))
                     metas.append(G.smtwtp_replay_obj(rec, "C04", 0))
     codes = C.coq_codes(ctx, "cases_C04_sched_smtwtp", C.HDR_FFSP, "HC07F.smtwtp_case", "check_C04_smtwtp", cases, shard=60)
     if codes is not None:
@@ -262,7 +301,7 @@ def run_unit(ctx, proofs_ok):
         unit.update(_fjsp_part(ctx, rng, torch, nx, coll))
         unit.update(_ffsp_part(ctx, rng, torch, 2 * nx, coll))
         unit.update(_smtwtp_part(ctx, rng, torch, 2 * nx, coll))
-        if (coll.n_disagree or not proofs_ok or any("C04_sched" in b for b in ctx.broken)) and not coll.best:
+        if (coll.n_disagree or not proofs_ok or any("C04_sched" in b for b in ctx.broken)) and not coll.best and not C.guard.timed_out():
             s = {}
             s.update(_fjsp_part(ctx, rng, torch, 4 * nx, coll, count=False))
             s.update(_ffsp_part(ctx, rng, torch, 8 * nx, coll, count=False))
@@ -271,7 +310,10 @@ def run_unit(ctx, proofs_ok):
         unit["concrete_failures"] = coll.flush()
         unit["disagreements"] = coll.n_disagree
         unit["observables"] = ("action_mask after reset and every step, finishing step, reward, mask/done during padding: batched row vs its "
-                               "solo run (implementation alone); row model vs batched rows in Coq; blockify vs its batched model")
+                               "solo run (implementation alone); row model vs batched rows in Coq; blockify vs its batched model; the batch-global guards of "
+                               "env.get_reward (FJSP/JSSP, partly finished batch) and env.pre_step (FFSP, running batch) vs their batched models "
+                               "(the per-state bookkeeping keys are compared by the C07 units)")
+        unit["env_call_guard"] = C.guard.evidence()
         unit["wall_s_unit"] = round(time.time() - t0, 1)
         ctx.units["sched"] = unit
 
